@@ -166,7 +166,7 @@ impl vstd::std_specs::cmp::PartialEqSpecImpl for TypePath {
 //@fn attr.rs MemberAttrs::iter_for_kind
 //@props C05,C12
 //@spec
-    ensures r.items() == refs(self.attrs@).filter(p_kind(*kind, fallible)), // #exactly-the-entries-of-that-kind
+    ensures r.items() == sfilter(refs(self.attrs@), p_kind(*kind, fallible)), // #exactly-the-entries-of-that-kind
 //@closure 0
     move |x: &&MemberAttr| -> (r: bool) ensures r == p_kind(*kind, fallible)(*x)
 //@end
@@ -174,7 +174,7 @@ impl vstd::std_specs::cmp::PartialEqSpecImpl for TypePath {
 //@fn attr.rs DataTypeAttrs::iter_for_kind
 //@props C04,C12
 //@spec
-    ensures r.items() == refs(self.attrs@).filter(p_tkind(*kind, fallible)), // #exactly-the-instructions-of-that-kind
+    ensures r.items() == sfilter(refs(self.attrs@), p_tkind(*kind, fallible)), // #exactly-the-instructions-of-that-kind
 //@closure 0
     move |x: &&TraitAttr| -> (r: bool) ensures r == p_tkind(*kind, fallible)(*x)
 //@end
@@ -183,7 +183,7 @@ impl vstd::std_specs::cmp::PartialEqSpecImpl for TypePath {
 //@fn attr.rs MemberAttrs::iter_for_kind_core
 //@props C05,C12
 //@spec
-    ensures r.items() == refs(self.attrs@).filter(p_kind(*kind, fallible)).map_values(core_of()), // #cores-of-that-kind
+    ensures r.items() == sfilter(refs(self.attrs@), p_kind(*kind, fallible)).map_values(core_of()), // #cores-of-that-kind
 //@closure 0
     |x: &MemberAttr| -> (r: &MemberAttrCore) ensures r == core_of()(x)
 //@end
@@ -191,7 +191,7 @@ impl vstd::std_specs::cmp::PartialEqSpecImpl for TypePath {
 //@fn attr.rs DataTypeAttrs::iter_for_kind_core
 //@props C04,C12
 //@spec
-    ensures r.items() == refs(self.attrs@).filter(p_tkind(*kind, fallible)).map_values(tcore_of()), // #cores-of-that-kind
+    ensures r.items() == sfilter(refs(self.attrs@), p_tkind(*kind, fallible)).map_values(tcore_of()), // #cores-of-that-kind
 //@closure 0
     |x: &TraitAttr| -> (r: &TraitAttrCore) ensures r == tcore_of()(x)
 //@end
@@ -203,7 +203,7 @@ impl vstd::std_specs::cmp::PartialEqSpecImpl for TypePath {
 //@closure 0
     |x: &&MemberAttr| -> (r: bool) ensures r == p_mattr(*container_ty, true)(*x)
 //@closure 1
-    || -> (r: Option<&MemberAttr>) ensures r == first(refs(self.attrs@).filter(p_kind(*kind, fallible)), p_mattr(*container_ty, false))
+    || -> (r: Option<&MemberAttr>) ensures r == first(sfilter(refs(self.attrs@), p_kind(*kind, fallible)), p_mattr(*container_ty, false))
 //@closure 2
     |x: &&MemberAttr| -> (r: bool) ensures r == p_mattr(*container_ty, false)(*x)
 //@end
@@ -215,7 +215,7 @@ impl vstd::std_specs::cmp::PartialEqSpecImpl for TypePath {
 //@closure 0
     |x: &&MemberAttrCore| -> (r: bool) ensures r == p_mcore(*container_ty, true)(*x)
 //@closure 1
-    || -> (r: Option<&MemberAttrCore>) ensures r == first(refs(self.attrs@).filter(p_kind(*kind, fallible)).map_values(core_of()), p_mcore(*container_ty, false))
+    || -> (r: Option<&MemberAttrCore>) ensures r == first(sfilter(refs(self.attrs@), p_kind(*kind, fallible)).map_values(core_of()), p_mcore(*container_ty, false))
 //@closure 2
     |x: &&MemberAttrCore| -> (r: bool) ensures r == p_mcore(*container_ty, false)(*x)
 //@end
